@@ -150,12 +150,13 @@ def _parse(lines, results):
         if "VERIFICATION:- SUCCESSFUL" in line:
             r.status = "success"
         elif "VERIFICATION:- FAILED" in line:
-            if r.status != "timeout":
+            if r.status not in ("timeout", "error"):
                 r.status = "failed"
-        elif re.search(r"timed out|Timeout|TIMEOUT", line) and "harness" in line.lower():
+        elif "CBMC timed out" in line or re.search(r"harness.*timed out", line, re.I):
             r.status = "timeout"
         elif "CBMC failed" in line or "Status: ERROR" in line or "std::bad_alloc" in line or "out of memory" in line.lower():
-            r.status = "error"
+            if r.status != "timeout":
+                r.status = "error"
         mm = re.match(r"\s*Failed Checks: (.*)$", line)
         if mm:
             r.failed_checks.append([mm.group(1).strip(), ""])
